@@ -356,3 +356,23 @@ def option_payload_type(ctx, ty):
             if v["fields"]:
                 return v["fields"][0]["ty"]
     return None
+
+
+def known_empty(log, seq):
+    """True when the path constraints establish len(seq) == 0 (any of the canonical forms of the length test)"""
+    ln = ("len", seq)
+    for k, t, v in log:
+        if k != "eq" or not (isinstance(t, tuple) and t and t[0] == "binop"):
+            continue
+        op, a, b = t[1], t[2], t[3]
+        if a == ln and is_const(b):
+            c = b[1]
+            if (op == "Eq" and c == 0 and v == 1) or (op == "Ne" and c == 0 and v == 0) or (op == "Lt" and c == 1 and v == 1) \
+                    or (op == "Le" and c == 0 and v == 1):
+                return True
+        if b == ln and is_const(a):
+            c = a[1]
+            if (op == "Le" and c == 1 and v == 0) or (op == "Lt" and c == 0 and v == 0) or (op == "Eq" and c == 0 and v == 1) \
+                    or (op == "Ne" and c == 0 and v == 0):
+                return True
+    return False
